@@ -375,7 +375,12 @@ void Interpret::interp(ASTNode& n) {
             }
         }
     } catch (ApiException const &e) {
-        notify_formatted(true, e.what());
+        notify_formatted(true, "%s", e.what());
+    } catch (std::exception const & e) {
+        // e.g. LANonLinearException, InternalException, std::logic_error from unsupported model / interpolation queries
+        notify_formatted(true, "%s", e.what());
+    } catch (...) {
+        notify_formatted(true, "internal error");
     }
 }
 
